@@ -86,6 +86,7 @@ def check(repo, tier="quick"):
     rule_f(repo, res, m)
     rule_h(repo, res, m)
     res.floor("C07.h", 40)
+    version_logging_rule(repo, res, "C07.c")
     from .. import globals_state, lints
 
     globals_state.rule(repo, res, "C07.g", ["bitstream.vc2_autofill"], what="the values filled in for one stream")
@@ -247,6 +248,23 @@ def rule_c(repo, res, m):
                 if p and isinstance(t, ast.Compare) and isinstance(t.left, ast.Name) and len(t.ops) == 1 and isinstance(t.ops[0], ast.Eq) and isinstance(t.comparators[0], ast.Constant) and t.comparators[0].value == 0 and _is_index_local(fn, t.left.id):
                     flags.append("index==0")
             conds[dotted(c.func)] = flags
+    # ... and under nothing else: every guard of every implication call is a test of the data unit itself (its parse
+    # code, a flag or index read from it, the presence of transform parameters) -- not of anything remembered from
+    # earlier data units, so every sequence header and every picture of the sequence is inspected
+    for c in ast.walk(fn):
+        if isinstance(c, ast.Call) and (dotted(c.func) or "").endswith("_version_implication"):
+            extra = []
+            for t, pol in guards_of(c, fn):
+                for term in (t.values if isinstance(t, ast.BoolOp) and isinstance(t.op, ast.And) and pol else [t]):
+                    tt = norm(term)
+                    ok = (
+                        (isinstance(term, ast.Call) and dotted(term.func) == "get_auto")
+                        or (isinstance(term, ast.Compare) and len(term.ops) == 1 and isinstance(term.left, ast.Name) and _is_index_local(fn, term.left.id))
+                        or tt in ("parse_code == ParseCodes.sequence_header", "tp is not None")
+                    )
+                    if not ok:
+                        extra.append(short(term, 50))
+            res.check(not extra, "C07.c", "unconditional:%s@%d" % (dotted(c.func), sum(1 for o in res.obs if o.key.startswith("unconditional:%s@" % dotted(c.func)))), where, "%s is consulted only under the additional condition(s) %s, which do not come from the data unit being inspected: some sequence headers or pictures of the sequence are then skipped and a feature only they use does not raise the version" % (dotted(c.func), extra), by="guards test the data unit only")
     want = {
         "preset_frame_rate_version_implication": ["custom_frame_rate_flag"],
         "preset_signal_range_version_implication": ["custom_signal_range_flag"],
@@ -467,3 +485,39 @@ def rule_h(repo, res, m):
                 elif isinstance(d, ast.Subscript) and isinstance(d.value, ast.Subscript) and dotted(d.value.value) == "vc2_default_values_with_auto" and const_str(d.slice) == key and dotted(d.value.slice) in decl and key in decl[dotted(d.value.slice)]:
                     why = "documented default of %s.%s" % (dotted(d.value.slice), key)
                 res.check(why is not None, "C07.h", nth("%s:get:%s" % (name, key)), where, "`%s` reads field %r with a default that is not the documented one (an omitted field must take its documented default; use get_auto or vc2_default_values_with_auto[T][%r])" % (short(c, 80), key, key), by=why or "")
+
+
+def version_logging_rule(repo, res, rid):
+    """validator side of the version rule: every implication the validator computes is logged as a lower bound on
+    every path on which it does not reject the stream (otherwise a correctly labelled stream is rejected as
+    MajorVersionTooHigh at the end of the sequence)"""
+    n = 0
+    for spec in ("decoder.stream", "decoder.sequence_header", "decoder.picture_syntax"):
+        m = repo.mod(spec)
+        for fname, fn in sorted(m.funcs.items()):
+            for a in ast.walk(fn):
+                if not (isinstance(a, ast.Assign) and isinstance(a.value, ast.Call) and (dotted(a.value.func) or "").endswith("_version_implication") and isinstance(a.targets[0], ast.Name)):
+                    continue
+                v = a.targets[0].id
+                blk = None
+                p = getattr(a, "_parent", None)
+                for field in ("body", "orelse", "finalbody"):
+                    b = getattr(p, field, None)
+                    if isinstance(b, list) and any(x is a for x in b):
+                        blk = b
+                n += 1
+                ok = False
+                if blk is not None:
+                    rest = blk[[i for i, x in enumerate(blk) if x is a][0] + 1:]
+                    for x in rest:
+                        if isinstance(x, ast.Expr) and isinstance(x.value, ast.Call) and dotted(x.value.func) == "log_version_lower_bound" and len(x.value.args) == 2 and dotted(x.value.args[1]) == v:
+                            ok = True
+                            break
+                        if isinstance(x, ast.If) and not x.orelse and x.body and isinstance(x.body[-1], ast.Raise) and not any(isinstance(y, ast.Call) and dotted(y.func) == "log_version_lower_bound" for y in ast.walk(x)):
+                            continue  # the rejection itself
+                        if isinstance(x, ast.Assign) and all(isinstance(t, ast.Name) and t.id != v for t in x.targets):
+                            continue  # a local the rejection test uses
+                        break
+                res.check(ok, rid, "validator-logs:%s:%s" % (fname, dotted(a.value.func)), "%s:%s" % (m.rel, fname), "the result of %s must be passed to log_version_lower_bound on every path that does not raise (right after the `if state['major_version'] < ...: raise`), otherwise a stream that needs this version and says so is rejected as MajorVersionTooHigh" % dotted(a.value.func), by="log_version_lower_bound(state, %s) follows the rejection test" % v)
+    if n < 8:
+        raise AnalysisError("only %d version implications found in the validator" % n)
